@@ -460,7 +460,7 @@ def run(chk):
         plan.append(("complex", True, 100))
         plan.append(("complex", False, 30))
     unsound_tie(chk)
-    worst = {"back": 0.0, "car": 0.0, "parts": 0, "pruned_nonzero": 0}
+    worst = {"back": 0.0, "car": 0.0, "parts": 0, "pruned_nonzero": 0, "copies": 0}
     hstat = {"scenarios": 0, "histories": 0, "verified_identical_to_one_go": 0, "verified_by_full_analysis": 0, "not_identical_to_one_go": 0, "skipped": 0, "by_kind": {}}
     nscen = 0
     for variant, cplx, count in plan:
@@ -480,6 +480,7 @@ def run(chk):
                 worst["car"] = max(worst["car"], *facts["car"][1:])
             worst["parts"] += facts.get("parts", 0)
             worst["pruned_nonzero"] += facts.get("pruned_nonzero", 0)
+            worst["copies"] += facts.get("copies_compared", 0)
             if fails:
                 report(chk, variant, text, qs, fails)
             # container histories: verified by identity with the one-go container records just analysed, or by their own full analysis
@@ -490,7 +491,8 @@ def run(chk):
     c10_large.stage(chk, quick, analyse_dump)
     chk.extra["container_histories"] = hstat
     chk.extra["observed"] = {"max_rotate_back_deviation": worst["back"], "max_CAR_deviation": worst["car"], "stored_parts_compared": worst["parts"],
-                             "nonzero_entries_absent_below_threshold": worst["pruned_nonzero"]}
+                             "nonzero_entries_absent_below_threshold": worst["pruned_nonzero"],
+                             "copies_of_computed_operators_compared_with_the_original": worst["copies"]}
     import distslice
     distslice.gf_slice(chk, chk.tier == "quick", 'field operators computed through FieldOperator::compute(comm) / the container on several ranks are not the single-rank ones (seen through G)')
     chk.rule = ("scenario = model family x partition (default, ignored, custom integrals of motion N / S_z / N and S_z / per-site charges) x build, as for C03; per scenario every "
